@@ -72,7 +72,7 @@ def make_trace(tid, rng, nops=30, **opt):
             # footer fields that do not influence the mapping
             "fid": rng.randrange(0, 0x90),   # identity of this image
             "footer": {"features": rng.choice([2, 2, 3]), "uid": bytes(rng.randrange(256) for _ in range(16)), "timestamp": rng.getrandbits(32),
-                       "geometry": rng.choice([0x03FF103F, 0, 0xFFFF10FF])}}
+                       "geometry": rng.choice([0x03FF103F, 0, 0xFFFF10FF]), "creator_app": rng.choice([b"vpc ", b"win ", b"qemu", b"vbox"])}}
     b = build(img, prof, P=npos, size_bytes=size_b)
     s = b.open()
     fresh = b.open()
